@@ -164,6 +164,27 @@ func rpScenario(c *choice.Ctx, rep *report.R, depth int) {
 			}
 			cl.nresp = len(rs)
 		}
+		// single flight: per (question, client group) every client request still waiting for its response may have one upstream
+		// query in flight (a miss), and beyond those there is at most one more - the background refresh
+		for qi := range names {
+			for _, cl := range clients {
+				up := 0
+				for _, p := range u.Pending() {
+					if n, ok := ecsNet(p); ok && qIndex(p.Msg) == qi && n == cl.net24 {
+						up++
+					}
+				}
+				waiting := 0
+				for id, q := range cl.sent {
+					if q == qi && cl.seen[id] == 0 {
+						waiting++
+					}
+				}
+				if up > waiting+1 {
+					fail("concurrent-refreshes", fmt.Sprintf("%d upstream queries in flight for %s and the group of client %d while %d of its requests wait for a response: more than one background refresh", up, names[qi], cl.idx, waiting))
+				}
+			}
+		}
 	}
 	aged := false
 	// start state: a fresh router, or one whose cache holds the answer to question one for group g1 in the last quarter of its
